@@ -196,43 +196,43 @@ COMMIT;
         if term.is_empty() || start >= self.len() {
             return Ok(None);
         }
+        // The text is never handed to the FTS query parser as is: only its tokens are, as one
+        // quoted phrase. FTS merely proposes candidates; each one is checked against the text.
+        let Some(phrase) = fts_phrase(term, start_with) else {
+            return Ok(None);
+        };
         let start = start + 1; // first rowid is 1
-        let query = match (dir, start_with) {
-            (SearchDirection::Forward, true) => {
-                "SELECT docid, entry FROM fts WHERE entry MATCH '^' || ?1 || '*'  AND docid >= ?2 \
-                 ORDER BY docid ASC LIMIT 1;"
+        let query = match dir {
+            SearchDirection::Forward => {
+                "SELECT docid, entry FROM fts WHERE entry MATCH ?1 AND docid >= ?2 ORDER BY docid \
+                 ASC;"
             }
-            (SearchDirection::Forward, false) => {
-                "SELECT docid, entry, offsets(fts) FROM fts WHERE entry MATCH ?1 || '*'  AND docid \
-                 >= ?2 ORDER BY docid ASC LIMIT 1;"
-            }
-            (SearchDirection::Reverse, true) => {
-                "SELECT docid, entry FROM fts WHERE entry MATCH '^' || ?1 || '*'  AND docid <= ?2 \
-                 ORDER BY docid DESC LIMIT 1;"
-            }
-            (SearchDirection::Reverse, false) => {
-                "SELECT docid, entry, offsets(fts) FROM fts WHERE entry MATCH ?1 || '*'  AND docid \
-                 <= ?2 ORDER BY docid DESC LIMIT 1;"
+            SearchDirection::Reverse => {
+                "SELECT docid, entry FROM fts WHERE entry MATCH ?1 AND docid <= ?2 ORDER BY docid \
+                 DESC;"
             }
         };
         let mut stmt = self.conn.prepare_cached(query)?;
-        stmt.query_row((term, start), |r| {
+        let mut rows = stmt.query((phrase, start))?;
+        while let Some(r) = rows.next()? {
             let rowid = r.get::<_, usize>(0)?;
+            // a stale docid (no row behind it) has no entry
+            let Some(entry) = r.get::<_, Option<String>>(1)? else {
+                continue;
+            };
+            let Some(pos) = match_pos(&entry, term, start_with) else {
+                continue;
+            };
             if rowid > self.row_id.get() {
                 self.row_id.set(rowid);
             }
-            Ok(SearchResult {
-                entry: Cow::Owned(r.get(1)?),
+            return Ok(Some(SearchResult {
+                entry: Cow::Owned(entry),
                 idx: rowid - 1, // rowid - 1
-                pos: if start_with {
-                    term.len()
-                } else {
-                    offset(r.get(2)?)
-                },
-            })
-        })
-        .optional()
-        .map_err(ReadlineError::from)
+                pos,
+            }));
+        }
+        Ok(None)
     }
 }
 
@@ -440,11 +440,40 @@ fn is_same(old: Option<&PathBuf>, new: &Path) -> bool {
         new.as_os_str() == MEMORY
     }
 }
-fn offset(s: String) -> usize {
-    s.split(' ')
-        .nth(2)
-        .and_then(|s| s.parse().ok())
-        .unwrap_or(0)
+/// Characters the FTS `simple` tokenizer keeps (ASCII letters and digits, everything non ASCII).
+fn is_fts_token_char(c: char) -> bool {
+    c.is_ascii_alphanumeric() || !c.is_ascii()
+}
+/// FTS phrase made of the tokens of `term` (anything else becomes a blank, so no character of
+/// the text can act as query syntax); `None` if there is no token to look for.
+fn fts_phrase(term: &str, start_with: bool) -> Option<String> {
+    if !term.chars().any(is_fts_token_char) {
+        return None;
+    }
+    let mut phrase = String::with_capacity(term.len() + 4);
+    phrase.push('"');
+    if start_with {
+        phrase.push('^');
+    }
+    phrase.extend(
+        term.chars()
+            .map(|c| if is_fts_token_char(c) { c } else { ' ' }),
+    );
+    if term.chars().next_back().is_some_and(is_fts_token_char) {
+        phrase.push('*'); // the last token may go on in the entry
+    }
+    phrase.push('"');
+    Some(phrase)
+}
+/// Byte offset reported for `entry` if it really starts with / contains `term` (ASCII case
+/// ignored, like the FTS tokenizer does).
+fn match_pos(entry: &str, term: &str, start_with: bool) -> Option<usize> {
+    let (entry, lterm) = (entry.to_ascii_lowercase(), term.to_ascii_lowercase());
+    if start_with {
+        entry.starts_with(&lterm).then_some(term.len())
+    } else {
+        entry.find(&lterm)
+    }
 }
 
 #[cfg(test)]
